@@ -3,6 +3,7 @@ package main
 
 import (
 	"verif/sim/kernel"
+	"verif/sim/props/c04"
 	"verif/sim/props/c06"
 	"verif/sim/props/c07"
 	"verif/sim/props/c17"
@@ -11,6 +12,7 @@ import (
 
 func main() {
 	kernel.Main(map[string]kernel.Property{
+		"C04": c04.Prop{},
 		"C06": c06.Prop{},
 		"C07": c07.Prop{},
 		"C15": cmdsim.C15{},
